@@ -87,6 +87,8 @@ struct World {
     unref_at: BTreeMap<String, i64>,
     deletes_seen: u64,
     retention_removals: u64,
+    /// every path that was ever in the persisted pending-deletion list
+    ever_persisted: BTreeSet<String>,
 }
 
 fn pin_set(k: u8) -> Vec<String> {
@@ -144,6 +146,17 @@ impl World {
             unref_at: BTreeMap::new(),
             deletes_seen: 0,
             retention_removals: 0,
+            ever_persisted: BTreeSet::new(),
+        }
+    }
+
+    async fn note_persisted(&mut self) {
+        if let Some(b) = crate::engine::store::raw_get(&self.mem, PENDING).await {
+            for v in serde_json::from_slice::<Vec<serde_json::Value>>(&b).unwrap_or_default() {
+                if let Some(p) = v["path"].as_str() {
+                    self.ever_persisted.insert(p.to_string());
+                }
+            }
         }
     }
 
@@ -202,6 +215,7 @@ impl World {
                 self.gs.clear_injections();
             }
         }
+        self.note_persisted().await;
         self.judge().await
     }
 
@@ -290,10 +304,10 @@ impl World {
 
     /// deletions persisted at the end of a cycle are carried out after restart + grace + one cycle
     async fn epilogue(&mut self) -> Result<(), Fail> {
-        let persisted: Vec<String> = match crate::engine::store::raw_get(&self.mem, PENDING).await {
-            Some(b) => serde_json::from_slice::<Vec<serde_json::Value>>(&b).unwrap_or_default().iter().filter_map(|v| v["path"].as_str().map(|s| s.to_string())).collect(),
-            None => vec![],
-        };
+        // every deletion that was persisted at the end of some cycle of this history (not only those still listed now:
+        // an entry that silently drops out of the list is exactly a deletion that is never carried out)
+        self.note_persisted().await;
+        let persisted: Vec<String> = self.ever_persisted.iter().cloned().collect();
         self.pins.clear();
         self.pinned_paths.clear();
         self.envs.advance_wall_secs(self.hc.grace_s as i64 + 1);
@@ -304,7 +318,7 @@ impl World {
             if crate::engine::store::raw_get(&self.mem, p).await.is_some() {
                 return Err(Fail {
                     sig: "C09:persisted-deletion-not-carried-out-after-restart".into(),
-                    msg: format!("{p} was in the persisted pending-deletion list, but still exists after restart + grace + one cycle"),
+                    msg: format!("{p} was in the persisted pending-deletion list at the end of a cycle, but still exists after unpinning everything, restart + grace + one cycle"),
                 });
             }
         }
